@@ -11,7 +11,7 @@ Record pf := mk_pf { pf_name : string; pf_db : string; pf_c : bool; pf_u : bool;
 Record case := mk_case {
   k_table : string; k_schema : schema; k_op : op;
   k_selects : list sitem; k_omits : list sitem;
-  k_rows : list payload; k_stored : list srow; k_model_key : list Z; k_where : option (list Z);
+  k_rows : list payload; k_stored : list srow; k_model_key : mkey; k_where : option (list Z);
   (* observed *)
   o_cells : list cell; o_err : bool; o_parsed : list pf; o_setup_failed : bool
 }.
